@@ -128,6 +128,8 @@ package rueidis
 //@   modifies *
 //@   ensures [C29 a-reply-that-was-not-consumed-completely-comes-with-an-error] !clean ==> err != nil
 //@   loop 1: invariant [C29] !clean ==> err != nil
+//@   ensures [C29 a-complete-string-reply-is-consumed-including-its-terminator where-defined] (clean && (typ == '$' || typ == '=') && second(returned(readI)) == nil && first(returned(readI)) != -1) ==> calls(Discard) == 1
+//@   loop 0: invariant [C29] calls(Discard) == 0
 
 // ---------------------------------------------------------------------------------------------
 // C15 — typed reply accessors never panic (message.go).
